@@ -15,7 +15,8 @@ RULE = ('enumerated: per shipped file every ordered subset of its tables of size
         'resolved against the file. Oracle: a second listing instance visits first(), next()... and reads the cell; for '
         'AUTOUGH2 short output the printed short tables are read by the independent scanner; termination is refuted by '
         'more than 1000 consecutive reads at end of file. Non-trivial = two or more tables, or a selection that skips a '
-        'table lying between two selected ones, or a reversed key, or short output; distinct = distinct case JSON.')
+        'table lying between two selected ones, or a reversed key, or short output; distinct = distinct case JSON.'
+        ' Also: search call_history = a warm-up history() of a related selection (reversed, rotated, sorted, sub-selection, same, other short flag) on the same reader before the judged call.')
 ASSUMPTIONS = ['selections name only tables, rows and columns that exist in the file (the documented use)',
                'a one-item list may come back as a bare (times, values) pair, as the single-tuple form does',
                'with AUTOUGH2 short output an item printed in the short tables is returned at every time (listing.times), '
